@@ -46,6 +46,16 @@ func (q *MultiOpQueryer) Subscribe(req *requests.Request, closeCh <-chan struct{
 	errCh := make(chan error)
 	defer close(errCh)
 
+	// resCh is never closed by the receiver: every send gives up once closeCh is closed
+	send := func(res *requests.Response) bool {
+		select {
+		case resCh <- res:
+			return true
+		case <-closeCh:
+			return false
+		}
+	}
+
 	go func() {
 		defer verifhook.At("Cq.done", resCh)
 		defer func() {
@@ -67,7 +77,7 @@ func (q *MultiOpQueryer) Subscribe(req *requests.Request, closeCh <-chan struct{
 			conn.Close()
 			// indicate that it's done
 			verifhook.At("Rq.sendNil", resCh)
-			resCh <- nil
+			send(nil)
 		}()
 
 		bInitMsg, err := json.Marshal(requests.ClientSubMsg{
@@ -117,8 +127,8 @@ func (q *MultiOpQueryer) Subscribe(req *requests.Request, closeCh <-chan struct{
 					return
 				}
 				verifhook.At("Rq.sendR", resCh)
-				resCh <- &requests.Response{
-					Errors: serverErrorResp.Payload,
+				if !send(&requests.Response{Errors: serverErrorResp.Payload}) {
+					return
 				}
 				continue
 			}
@@ -131,7 +141,9 @@ func (q *MultiOpQueryer) Subscribe(req *requests.Request, closeCh <-chan struct{
 				return
 			case requests.SubData:
 				verifhook.At("Rq.sendR", resCh)
-				resCh <- serverResp.Payload
+				if !send(serverResp.Payload) {
+					return
+				}
 			}
 		}
 	}()
